@@ -496,3 +496,44 @@ def hd_unit(n):
 
 
 UNITS += [hd_unit(3), hd_unit(6)]
+
+
+# ------------------------------------------------------------------------------ CHICFragment.__init__: the bucket key (match_hash)
+# fragments are only compared inside one bucket: two fragments with the same key must share cell, strand and contig (and the
+# exact site when the assignment radius is 0; within a radius the position is compared by __eq__)
+def hash_block(f):
+    c = blocks.find_nodes(f, lambda n: isinstance(n, ast.If) and ast.unparse(n.test) == 'self.is_valid()')
+    return c[:1]
+
+
+def hash_self(eng, name):
+    radius = named(INT, 'assignment_radius')
+    eng.assume(radius.z >= 0)
+    return Obj('CHICFragment', {'assignment_radius': radius, 'strand': named(BOOL, 'strand'), 'cut_site_strand': named(BOOL, 'cut_site_strand'),
+                                'site_location': (named(STR, 'site_contig'), named(INT, 'site_position')), 'sample': named(STR, 'sample'),
+                                'match_hash': 'unset'}, info=eng.loader.classref(FC, 'CHICFragment'))
+
+
+def hash_setup(eng):
+    eng.spec_env['VALID'] = named(BOOL, 'fragment_is_valid')
+    for q in ('singlecellmultiomics.fragment.fragment.Fragment.is_valid', 'singlecellmultiomics.fragment.chic.CHICFragment.is_valid'):
+        eng.loader.call_hooks[q] = lambda e, f, a, k, n: e.spec_env['VALID']
+
+
+chic_hash = Contract(
+    PROP, FC + '::CHICFragment.__init__', name='CHICFragment.__init__[bucket key]',
+    block=hash_block,
+    params={'self': hash_self},
+    setup=hash_setup,
+    ensures={
+        'invalid_fragments_have_no_key': 'implies(not VALID, self.match_hash is None)',
+        'exact_sites_key': 'implies(VALID and self.assignment_radius == 0, self.match_hash == '
+                           '(self.strand, self.cut_site_strand, self.site_location[0], self.site_location[1], self.sample))',
+        # within a radius the position is left to __eq__; cell, strand and contig stay in the key
+        'radius_key_keeps_strand_contig_and_cell': 'implies(VALID and self.assignment_radius != 0, self.match_hash == '
+                                                   '(self.cut_site_strand, self.site_location[0], self.sample))',
+    },
+    raises={},
+    assumptions=['Fragment.is_valid an arbitrary verdict; identify_site has set strand / cut_site_strand / site_location (C09)'],
+)
+UNITS.append(chic_hash)
